@@ -251,6 +251,7 @@ func cmdCheck(args []string) int {
 	total, discharged := 0, 0
 	byBackend := map[string]int{}
 	solverTime := 0.0
+	slowestS, slowestName := 0.0, ""
 	var functions, notVerified, samples []string
 	assumptions := map[string]bool{}
 	violations := 0
@@ -352,6 +353,10 @@ func cmdCheck(args []string) int {
 				continue
 			}
 			solverTime += o.Result.Seconds
+			if o.Result.Seconds > slowestS {
+				slowestS = o.Result.Seconds
+				slowestName = shortFunc(o.Func) + ": " + o.Name
+			}
 			if o.Result.Status == "unsat" {
 				discharged++
 				byBackend[o.Result.Solver]++
@@ -430,6 +435,9 @@ func cmdCheck(args []string) int {
 			"contract_files":            prog.contracts.files,
 			"spec_files":                prog.spec.files,
 			"replay_regression":         replayRuns,
+			"slowest_obligation_s":      slowestS,
+			"slowest_obligation":        slowestName,
+			"solver_timeout_s":          timeout,
 		}}
 	writeJSON(evPath, ev)
 	fmt.Printf("property %s: %d obligations, %d discharged, %d violations, %d known findings, %d functions (%d with unsupported paths), %.1fs\n",
